@@ -3,12 +3,17 @@ package props
 import (
 	"testing"
 
+	"github.com/hashicorp/hcl/v2"
+	"github.com/hashicorp/hcl/v2/hclsyntax"
 	"github.com/zclconf/go-cty/cty"
+	"github.com/zclconf/go-cty/cty/convert"
 	"pgregory.net/rapid"
 
 	"verifharness/ast"
 	"verifharness/gen"
 	"verifharness/hx"
+	"verifharness/ref"
+	"verifharness/render"
 )
 
 func c01Nontrivial(n ast.Node, kinds map[string]bool, rfeat map[string]bool) bool {
@@ -76,3 +81,184 @@ func TestC01_Layout(t *testing.T) {
 }
 
 var _ = rapid.Bool
+
+func refEnv(sc *gen.Scope) *ref.Env {
+	vars := map[string]cty.Value{}
+	for k, v := range sc.Vals {
+		vars[k] = v
+	}
+	return ref.NewEnv(vars)
+}
+
+// knownNote reports whether the reference evaluation passed through a spot that a
+// listed known finding is keyed on (counted; the case is then not judged).
+func knownNote(c *hx.Case, env *ref.Env, r ref.Result) bool {
+	if r.Note != "" && c.Known(r.Note) {
+		return true
+	}
+	for _, n := range env.Notes() {
+		if c.Known(n) {
+			return true
+		}
+	}
+	return false
+}
+
+// judge compares an implementation outcome with the reference verdict.
+func judge(c *hx.Case, what string, env *ref.Env, r ref.Result, v cty.Value, diags hcl.Diagnostics) {
+	isErr := diags.HasErrors()
+	switch {
+	case r.Err:
+		if !isErr {
+			if knownNote(c, env, r) {
+				return
+			}
+			c.Failf("expected-error", "%s: the specification makes this erroneous, implementation returned %#v without error", what, v)
+		}
+	default:
+		if isErr {
+			if r.CondTypeErrOK {
+				for _, d := range diags {
+					if d.Severity == hcl.DiagError && d.Summary == "Inconsistent conditional result types" {
+						c.Unspecified("U9-cond-unselected-erroneous-type")
+						return
+					}
+				}
+			}
+			if knownNote(c, env, r) {
+				return
+			}
+			c.Failf("unexpected-error", "%s: reference value %#v, implementation reports: %s", what, r.V, diagStr(diags))
+		}
+		if r.Loose {
+			a, err1 := convert.Convert(v, r.V.Type())
+			b, err2 := convert.Convert(r.V, v.Type())
+			if (err1 == nil && a.RawEquals(r.V)) || (err2 == nil && b.RawEquals(v)) {
+				return
+			}
+			if knownNote(c, env, r) {
+				return
+			}
+			c.Failf("value-mismatch-loose", "%s: got %#v, reference %#v (type-loose comparison)", what, v, r.V)
+		}
+		if !v.RawEquals(r.V) {
+			if knownNote(c, env, r) {
+				return
+			}
+			c.Failf("value-mismatch", "%s: got %#v, reference %#v", what, v, r.V)
+		}
+	}
+}
+
+// TestC01_Eval: the implementation agrees with the reference interpreter.
+func TestC01_Eval(t *testing.T) {
+	hx.Run(t, "C01", "Eval", 30000,
+		"AST from G-EXPR (type-directed, 1-in-6 ill-typed) + scope of known values, 2 layouts as stand-alone expression and 1 as attribute value, judged by the reference interpreter (ref.Eval); non-trivial = >=3 nodes with operator pair / conditional / splat / for / call / template / index and a specified outcome; distinct by (AST dump, scope types)",
+		func(c *hx.Case) {
+			t := c.T
+			sc := gen.DrawScope(t, gen.ScopeOpts{Nulls: 12})
+			g := gen.NewEG(t, sc, gen.ExprOpts{IllTyped: 6, HostileLits: true})
+			n := g.Expr(cty.DynamicPseudoType)
+			dump := ast.Dump(n)
+			c.Set("ast", dump)
+			c.Set("scope", scopeDump(sc))
+			kinds := nodeKinds(n)
+			featClasses(c, "node_", kinds)
+			featClassesN(c, "gen_", g.Feat)
+			env := refEnv(sc)
+			r := ref.Eval(n, env)
+			switch {
+			case r.Unspec != "":
+				c.Class("outcome_unspecified")
+				c.Unspecified(r.Unspec)
+			case r.Err:
+				c.Class("outcome_error")
+				c.Set("reference", "error")
+			default:
+				c.Class("outcome_value")
+				c.Class("result_" + r.V.Type().FriendlyName())
+				c.Set("reference", r.V.GoString())
+			}
+			ctx := evalCtx(sc)
+			srcs, rfeat := drawLayouts(t, n, 1, 2)
+			featClasses(c, "layout_", rfeat)
+			for i, src := range srcs {
+				c.Set("source", src)
+				expr, diags := parseExprSrc(src)
+				if diags.HasErrors() {
+					c.Failf("parse-error", "layout %d does not parse: %s", i, diagStr(diags))
+				}
+				if r.Unspec != "" {
+					// still total: no panic
+					c.Guard("Value", func() { expr.Value(ctx) })
+					continue
+				}
+				var v cty.Value
+				c.Guard("Value", func() { v, diags = expr.Value(ctx) })
+				judge(c, "expression", env, r, v, diags)
+			}
+			// embedded as an attribute value (newline-sensitive context)
+			asrc, _ := render.AttrValue("attr", n, rchooser{t}, render.Opts{Wild: 2, CRLF: rapid.IntRange(0, 5).Draw(t, "crlf") == 0})
+			c.Set("source", asrc)
+			f, diags := hclsyntax.ParseConfig([]byte(asrc), "t.hcl", hcl.InitialPos)
+			if diags.HasErrors() {
+				c.Failf("attr-parse-error", "attribute form does not parse: %s", diagStr(diags))
+			}
+			attrs, diags := f.Body.JustAttributes()
+			if diags.HasErrors() || len(attrs) != 1 || attrs["attr"] == nil {
+				c.Failf("attr-structure", "attribute form: JustAttributes gave %d attributes: %s", len(attrs), diagStr(diags))
+			}
+			if r.Unspec == "" {
+				var v cty.Value
+				c.Guard("Value", func() { v, diags = attrs["attr"].Expr.Value(ctx) })
+				judge(c, "attribute value", env, r, v, diags)
+			}
+			c.Done(r.Unspec == "" && c01Nontrivial(n, kinds, rfeat), dump+"|"+scopeTypes(sc))
+		})
+}
+
+// TestC01_Template: stand-alone templates (ParseTemplate) agree with the reference.
+func TestC01_Template(t *testing.T) {
+	hx.Run(t, "C01", "Template", 12000,
+		"template parts from G-TMPL (literals with whitespace next to sequences, interpolations, if/for directives, strip markers) parsed with ParseTemplate, judged by ref.EvalTemplate; non-trivial = >=2 parts with a strip marker or directive; distinct by (parts dump, scope types)",
+		func(c *hx.Case) {
+			t := c.T
+			sc := gen.DrawScope(t, gen.ScopeOpts{Nulls: 12})
+			g := gen.NewEG(t, sc, gen.ExprOpts{IllTyped: 8, HostileLits: true, NoHeredoc: true})
+			parts := g.Parts()
+			if !render.PartsHeredocSafe(parts) {
+				c.Class("not_expressible_bare")
+				c.Done(false, "")
+				return
+			}
+			tn := ast.Template{Parts: parts, Form: ast.Heredoc}
+			dump := ast.Dump(tn)
+			c.Set("ast", dump)
+			c.Set("scope", scopeDump(sc))
+			featClassesN(c, "gen_", g.Feat)
+			src, _ := render.BareTemplate(parts, rchooser{t}, render.Opts{Wild: 2})
+			c.Set("source", src)
+			env := refEnv(sc)
+			r := ref.EvalTemplate(parts, env)
+			expr, diags := hclsyntax.ParseTemplate([]byte(src), "t.tmpl", hcl.InitialPos)
+			if diags.HasErrors() {
+				c.Failf("parse-error", "template does not parse: %s", diagStr(diags))
+			}
+			ctx := evalCtx(sc)
+			var v cty.Value
+			c.Guard("Value", func() { v, diags = expr.Value(ctx) })
+			switch {
+			case r.Unspec != "":
+				c.Class("outcome_unspecified")
+				c.Unspecified(r.Unspec)
+			case r.Err:
+				c.Class("outcome_error")
+				judge(c, "template", env, r, v, diags)
+			default:
+				c.Class("outcome_value")
+				c.Set("reference", r.V.GoString())
+				judge(c, "template", env, r, v, diags)
+			}
+			c.Done(r.Unspec == "" && len(parts) >= 2 && (g.Feat["tmpl_strip"] > 0 || g.Feat["tmpl_if"] > 0 || g.Feat["tmpl_for"] > 0), dump+"|"+scopeTypes(sc))
+		})
+}
